@@ -698,6 +698,11 @@ func (c *CharSet) addCategory(categoryName string, negate, caseInsensitive bool)
 
 	if caseInsensitive && (categoryName == "Ll" || categoryName == "Lu" || categoryName == "Lt") {
 		// when RegexOptions.IgnoreCase is specified then {Ll} {Lu} and {Lt} cases should all match
+		if negate {
+			// categories are OR'ed: the complement of the three is one negated cased-letter category
+			c.addCategories(Category{Cat: "LC", Negate: true})
+			return
+		}
 		c.addCategories(
 			Category{Cat: "Ll", Negate: negate},
 			Category{Cat: "Lu", Negate: negate},
